@@ -7,6 +7,7 @@
 -/
 import Sky.Prim.DrvLib
 import Sky.Ledger.Model
+import Sky.Ledger.HashCheck
 namespace Sky.Ledger.Drv
 open Sky Sky.Drv Sky.Ledger
 
@@ -121,6 +122,15 @@ def propsViolated (w : W) (implD modelD : String) (implRes modelRes : String) : 
   let c33 := if field implD "chain" != field modelD "chain" then ["C33"] else []
   c01 ++ c02 ++ c04 ++ c06 ++ c07 ++ c33
 
+/-- tags for differences between the annotations (values derived by the real code) and the same values
+recomputed from the raw bytes by the Lean codec + SHA-256 (`HashCheck`) -/
+def hashTags (errs : List String) : List String :=
+  errs.eraseDups.flatMap fun e =>
+    if e == "header-fields" || e == "header-hash-fields" || e == "header-hash" || e == "body-hash" || e == "txn-count"
+      then ["C04[hash:" ++ e ++ "]"]
+    else if e == "snapshot-hash" then ["C07[hash:" ++ e ++ "]", "C02[hash:" ++ e ++ "]"]
+    else ["C02[hash:" ++ e ++ "]"]
+
 /-- `extra`: property predicates that are evaluated on the implementation's behaviour even when it agrees
 with the model (C03: hours created by an accepted block) -/
 def finish (w : W) (impl expected : String) (implD modelD implRes modelRes : String)
@@ -188,11 +198,12 @@ def step1 (w : W) (op impl : String) : W × String × Verdict :=
        let (m, v) := finish w' impl expected (implDs.getD 1 "") (digest sf) implRes "ok"
        (w', m, v)
      | _, _ => (w, pre' ++ "R" ++ code rp ++ "/" ++ code rf, .unknown))
-  | ["exec", n, _] =>
+  | ["exec", n, hex] =>
     let s := getNode w n
     let txns := (txnSecs secs).map parseTxn
     let bsec := (secs.find? (·.startsWith "B")).getD "B"
     let b := parseBlock bsec txns
+    let hc := hashTags (HashCheck.checkBlockHex hex b)
     let r := execSigned s b
     let s' := match r with | .ok s' => s' | .error _ => s
     let w' := setNode w n s'
@@ -202,10 +213,10 @@ def step1 (w : W) (op impl : String) : W × String × Verdict :=
     let c05 := match w.made with
       | some (mh, onHead) => if mh == b.hh && b.sig && b.cb == b.body && onHead == headHh && implRes != "ok" then ["C05[made-block-rejected]"] else []
       | none => []
-    let extra := (if implRes == "ok" then c03Block s b else []) ++ c05
+    let extra := (if implRes == "ok" then c03Block s b else []) ++ c05 ++ hc
     let (m, v) := finish w' impl expected (implDs.getD 0 "") (digest s') implRes (code r) extra
     (w', m, v)
-  | ["give", n, _] =>
+  | ["give", n, hexes] =>
     let s := getNode w n
     -- blocks are separated by the token `|`
     let resIdx := (secs.findIdx? (·.startsWith "R")).getD secs.length
@@ -221,7 +232,9 @@ def step1 (w : W) (op impl : String) : W × String × Verdict :=
     let expected := " ".intercalate (secs.take resIdx) ++ s!" R{cnt} M" ++ ",".intercalate msgs ++ " " ++ digest s'
     -- C33: the node must keep requesting the blocks above its (new) head
     let implM := (secs.find? (·.startsWith "M")).getD "M"
-    let extra := if implM != "M" ++ ",".intercalate msgs then ["C33[requests]"] else []
+    let hexList := if hexes == "-" then [] else hexes.splitOn ","
+    let hc := hashTags ((hexList.zip blocks).flatMap fun (hx, b) => HashCheck.checkBlockHex hx b)
+    let extra := (if implM != "M" ++ ",".intercalate msgs then ["C33[requests]"] else []) ++ hc
     let (m, v) := finish w' impl expected (implDs.getD 0 "") (digest s') implRes (toString cnt) extra
     (w', m, v)
   | ["announce", n, k] =>
@@ -248,10 +261,11 @@ def step1 (w : W) (op impl : String) : W × String × Verdict :=
     let extra := if implRes != "ok" then ["C08[restart-fails]", "C07[rebuild-fails]"] else []
     let (m, v) := finish w' impl expected (implDs.getD 0 "") (digest s') implRes "ok" extra
     (w', m, v)
-  | [inj, n, _] =>
+  | [inj, n, hex] =>
     if inj == "injf" || inj == "inju" then
       let s := getNode w n
       let t := parseTxn ((txnSecs secs).getD 0 "T")
+      let hc := hashTags (HashCheck.checkTxnHex hex t)
       let (res, known, s') :=
         if inj == "injf" then
           match injectForeign s t with
@@ -263,7 +277,7 @@ def step1 (w : W) (op impl : String) : W × String × Verdict :=
           | .error e => (e, false, s)
       let w' := setNode w n s'
       let expected := pre' ++ "R" ++ res ++ " K" ++ toString known ++ " " ++ digest s'
-      let (m, v) := finish w' impl expected (implDs.getD 0 "") (digest s') implRes res
+      let (m, v) := finish w' impl expected (implDs.getD 0 "") (digest s') implRes res hc
       (w', m, v)
     else (w, "bad-op", .unknown)
   | [o, n] =>
